@@ -127,6 +127,16 @@ def teval(t, leaf=None, sv=None):
     ev = lambda x: teval(x, leaf, sv)
     if k == 'const':
         return t[2]
+    if k == 'fstr':
+        out = ''
+        for x in t[1]:
+            if x[0] == 'const':
+                out += str(x[2])
+            elif x[0] == 'fmt' and x[2] == -1 and not x[3]:
+                out += format(ev(x[1]))
+            else:
+                raise NoValue(text(t, 80))
+        return out
     if k == 'add':
         vals = [ev(x) for x in t[1]]
         out = vals[0]
@@ -176,9 +186,11 @@ def teval(t, leaf=None, sv=None):
         if all(isinstance(v, int) and not isinstance(v, bool) for v in vals):
             return range(*vals)
         raise NoValue(text(t, 80))
-    if k == 'call' and t[1] == 'builtins.sum' and len(t[3]) == 1 and t[3][0][1][0] in ('tuple', 'list') \
-            and not any(isinstance(x, tuple) and x and x[0] in ('star', 'when', 'each', 'acc') for x in t[3][0][1][1]):
-        return sum(ev(x) for x in t[3][0][1][1])
+    if k == 'call' and t[1] == 'builtins.sum' and len(t[3]) == 1:
+        from .sval import as_display
+        seq_ = as_display(t[3][0][1])
+        if seq_[0] in ('tuple', 'list') and not any(isinstance(x, tuple) and x and x[0] in ('star', 'when', 'each', 'acc') for x in seq_[1]):
+            return sum(ev(x) for x in seq_[1])
     if k == 'call' and t[1] in ('builtins.int', 'builtins.bool') and len(t[3]) == 1:
         v = ev(t[3][0][1])
         return int(v) if t[1] == 'builtins.int' else bool(v)
